@@ -271,7 +271,7 @@ func (p *Proc) evalIdent(ec *ectx, id *ast.Ident) Val {
 			}
 			if strings.HasPrefix(id.Name, "rangeidx") {
 				if n, err := strconv.Atoi(id.Name[8:]); err == nil {
-					if o := p.rangeIdx[n]; o != nil {
+					if o := p.rangeIdx[p.loopKey(n)]; o != nil {
 						if t, ok := ec.st.vars[o]; ok {
 							return Val{T: t, Typ: o.Type()}
 						}
@@ -280,7 +280,7 @@ func (p *Proc) evalIdent(ec *ectx, id *ast.Ident) Val {
 			}
 			if strings.HasPrefix(id.Name, "iters") {
 				if n, err := strconv.Atoi(id.Name[5:]); err == nil {
-					if o := p.iters[n]; o != nil {
+					if o := p.iters[p.loopKey(n)]; o != nil {
 						if t, ok := ec.st.vars[o]; ok {
 							return Val{T: t, Typ: o.Type()}
 						}
@@ -289,7 +289,7 @@ func (p *Proc) evalIdent(ec *ectx, id *ast.Ident) Val {
 			}
 			if strings.HasPrefix(id.Name, "visited") {
 				if n, err := strconv.Atoi(id.Name[7:]); err == nil {
-					if o := p.visited[n]; o != nil {
+					if o := p.visited[p.loopKey(n)]; o != nil {
 						if t, ok := ec.st.vars[o]; ok {
 							return Val{T: t, Typ: o.Type()}
 						}
